@@ -67,8 +67,14 @@ func (c *X2Config) opts() WorldOpts {
 		o.LogDirPath = dir
 		if c.Initial != nil {
 			// the jobs of the earlier run left their logs behind
+			// (written through a store instance of their own, like the process of the earlier run did: the runner's store has
+			// never seen these directories)
+			earlier, err := taskctl.NewOutputStore(dir)
+			if err != nil {
+				panic(err)
+			}
 			for _, pj := range c.Initial.Jobs {
-				if wr, err := os.Writer(pj.ID.String(), "a", "stdout"); err == nil {
+				if wr, err := earlier.Writer(pj.ID.String(), "a", "stdout"); err == nil {
 					fmt.Fprintf(wr, "output of the earlier run of job %s\n", pj.ID)
 					wr.Close()
 				}
